@@ -92,21 +92,24 @@ def run(ctx):
         scale = rng.choice([1, 2, 0.5, 100])
         be = rng.choice(["numpy", "numpy", "tf"])
         op = {"k": "normalize", "p1": p1, "p2": p2, "scale": scale}
+        # a third of the time the pose has been normalised before (another scale, the same object): normalising is not a one-shot operation
+        first = [{"k": "normalize", "p1": p1, "p2": p2, "scale": rng.choice([3, 0.25, 7])}] if rng.random() < 0.33 else []
+        ctx.count("normalize on a pose normalised before" if first else "normalize once")
         a_, t_ = rng.choice([2.0, 0.5, 4.0, 1 / 256, 256.0]), np.array([rng.randint(-32, 32) / 4 for _ in range(D)])
         moved = with_data(case, data * a_ + t_)
         fill = rng.choice(FILLS)
-        info = {"case": case, "op": op, "backend": be, "similarity": [a_, t_.tolist()], "under_the_mask": fill}
+        info = {"case": case, "op": op, "backend": be, "similarity": [a_, t_.tolist()], "under_the_mask": fill, "normalised_before": first}
         ctx.count("under the mask:" + ("zero" if fill == [0] else "garbage"))
         nontrivial = bool((conf == 0).any())
         ctx.evaluated(json.dumps([case, op, be]), nontrivial=nontrivial); ctx.count("normalize:" + be)
         if be == "tf":
-            tf_queue.append(dict(case, fill1=fill, fill2=[0], ops=[op], backend="tf")); tf_queue.append(dict(moved, fill1=fill, fill2=[0], ops=[op], backend="tf"))
+            tf_queue.append(dict(case, fill1=fill, fill2=[0], ops=first + [op], backend="tf")); tf_queue.append(dict(moved, fill1=fill, fill2=[0], ops=first + [op], backend="tf"))
             tf_meta.append(("normalize", info, case, (p1, p2, scale)))
         else:
-            check_normalize(ctx, bad, info, case, niexec.run_case(dict(case, fill1=fill, fill2=[0], ops=[op], backend=be), be)["run1"],
-                            niexec.run_case(dict(moved, fill1=fill, fill2=[0], ops=[op], backend=be), be)["run1"], p1, p2, scale)
-            model_reqs.append({"op": "body_ops", "backend": "numpy", "body": model_body(case), "ops": [{"k": "normalize", "p1": p1, "p2": p2, "scale": f64_bits(float(scale))}]})
-            model_meta.append((info, case, [op]))
+            check_normalize(ctx, bad, info, case, niexec.run_case(dict(case, fill1=fill, fill2=[0], ops=first + [op], backend=be), be)["run1"],
+                            niexec.run_case(dict(moved, fill1=fill, fill2=[0], ops=first + [op], backend=be), be)["run1"], p1, p2, scale)
+            model_reqs.append({"op": "body_ops", "backend": "numpy", "body": model_body(case), "ops": [{"k": "normalize", "p1": o["p1"], "p2": o["p2"], "scale": f64_bits(float(o["scale"]))} for o in first + [op]]})
+            model_meta.append((info, case, first + [op]))
     # ------------------------------------------------------------------ distribution
     for it in range(ctx.pick(90, 900)):
         dims = rng.choice([2, 3])
@@ -154,11 +157,11 @@ def run(ctx):
             res = niexec.run_case(dict(case, fill1=[0], fill2=[0], ops=ops, backend="numpy"), "numpy")["run1"]
             if "error" in res[-1]:
                 continue
-            d, m, c = view_np(res[1])
-        if len(steps) < 2 or "error" in steps[1]:
+            d, m, c = view_np(res[-1])
+        if len(steps) < 2 or "error" in steps[-1]:
             ctx.violation("the model refuses a normalisation the implementation performs", info, {}, False); continue
-        md = np.array([bits_f64(x) for x in steps[1]["zf"]]).reshape(d.shape)
-        mm = np.array(steps[1]["missing"], dtype=bool).reshape(d.shape)
+        md = np.array([bits_f64(x) for x in steps[-1]["zf"]]).reshape(d.shape)
+        mm = np.array(steps[-1]["missing"], dtype=bool).reshape(d.shape)
         if not np.array_equal(m, mm) or not np.allclose(d, md, rtol=5e-4, atol=5e-4 * max(1.0, float(np.nanmax(np.abs(md))) if md.size else 1.0), equal_nan=True):
             ctx.violation("a normalisation differs from its model", info, {"max_abs": float(np.nanmax(np.abs(d - md))) if d.size else 0, "rel": float(np.nanmax(np.abs(d - md)) / max(1e-9, np.nanmax(np.abs(md)))) if d.size else 0}, False)
 
@@ -167,7 +170,7 @@ def check_normalize(ctx, bad, info, case, r1, r2, p1, p2, scale):
     if "error" in r1[-1] or "error" in r2[-1]:
         bad("normalize raises although its reference points are jointly observed", info, {"error": r1[-1].get("error") or r2[-1].get("error")}); return
     data, conf = arr(case)
-    d, m, c = view_np(r1[1])
+    d, m, c = view_np(r1[-1])
     D = data.shape[3]
     if not np.array_equal(m, np.repeat((conf == 0)[..., None], D, axis=3)) or not np.array_equal(c, conf):
         bad("normalize changes the missing pattern or the confidences", info, {}); return
@@ -175,7 +178,7 @@ def check_normalize(ctx, bad, info, case, r1, r2, p1, p2, scale):
     md = np.sqrt(((x - y) ** 2).sum(-1)).mean(); mid = ((x + y) / 2).mean(axis=0)
     if not math.isclose(md, scale, rel_tol=TOL * 5) or np.abs(mid).max() > TOL * 5 * max(1, scale):
         bad("after normalize the mean reference distance is not the requested scale or the mean midpoint is not the origin", info, {"mean_distance": float(md), "scale": scale, "mean_midpoint": mid.tolist()}); return
-    d2, m2, _ = view_np(r2[1])
+    d2, m2, _ = view_np(r2[-1])
     if not np.array_equal(m, m2) or not np.allclose(d, d2, rtol=TOL * 5, atol=TOL * 5 * max(1, scale)):
         bad("normalize is not invariant under translating and uniformly scaling the input", info, {"max_abs": float(np.abs(d - d2).max())})
 
